@@ -20,7 +20,16 @@ CaseBad(e) ==
       THEN {"NeverAltered"} ELSE {}) \cup
      (IF e.rc = 0 /\ e.o.bom = "ignore" /\ ~e.o.force /\ ~e.o.byte /\ det[1]
          /\ ~(IF det[2] \in {"utf16le", "utf16be"} THEN StartsWithBom(e.out) ELSE (StartsWithBom(e.out) <=> det[3]))
-      THEN {"BomPolicy"} ELSE {})
+      THEN {"BomPolicy"} ELSE {}) \cup
+     (* "unless utf8_bom / utf8_force say otherwise": what they say.  The output is UTF-8 when the input was UTF-8 or when  *)
+     (* utf8_force is set (or utf8_byte for undecodable input); then utf8_bom add / force puts the mark, remove takes it.  *)
+     (IF e.rc = 0 /\ det[1] /\ (e.o.force \/ (det[2] = "byte" /\ e.o.byte)) /\ Len(e.out) >= 2 /\ SubSeq(e.out, 1, 2) \in {<<255, 254>>, <<254, 255>>}
+      THEN {"ForceIsUtf8"} ELSE {}) \cup
+     (IF e.rc = 0 /\ det[1] /\ (det[2] = "utf8" \/ e.o.force \/ (det[2] = "byte" /\ e.o.byte))
+         /\ ~(CASE e.o.bom \in {"add", "force"} -> (Len(e.out) >= 3 /\ SubSeq(e.out, 1, 3) = <<239, 187, 191>>)
+                [] e.o.bom = "remove" -> ~(Len(e.out) >= 3 /\ SubSeq(e.out, 1, 3) = <<239, 187, 191>>)
+                [] OTHER -> TRUE)
+      THEN {"BomOption"} ELSE {})
 CaseDrift(e) ==
   LET r == Run(e.file, e.o)
   IN (IF (e.rc = 0) # (r[1] = "ok") THEN {"StatusAsModel"} ELSE {}) \cup
